@@ -2049,7 +2049,7 @@ def k_cpy(u):
     def dump(name):
         return u.tr(*[as_int(e, t) for e in (name + ".A", name + ".Arr[0]", name + ".Arr[%d]" % (n - 1), name + ".In.X", "*" + name + ".P", name + ".Sl[0]")])
 
-    forms = list(range(11))
+    forms = list(range(12))
     r.shuffle(forms)
     if "retload" in u.avoid and 5 in forms:
         forms.remove(5)
@@ -2178,6 +2178,34 @@ def k_cpy(u):
             b(dump(bb))
             b("*%s = §%s{Sl: []%s{0}, P: %s.P}" % (p2, S, t, a))
             b(dump(bb))
+        elif fm == 11:
+            # a copy read through a pointer, the memory overwritten, the copy returned: small aggregates are returned in
+            # registers through an integer-typed slot (C-ABI rewriting); the value read BEFORE the store must come back
+            sw, swa, swb = u.nm("Swap"), u.nm("SwapA"), u.nm("SwapB")
+            B3 = u.nm("B3")
+            L("type %s struct{ A, B, C uint8 }" % B3)
+            L()
+            for fnm, ty in ((sw, In), (swa, "[2]%s" % t), (swb, B3)):
+                L("//go:noinline")
+                L("func %s(p *%s, n %s) %s {" % (fnm, ty, ty, ty))
+                L("\told := *p")
+                L("\t*p = n")
+                L("\treturn old")
+                L("}")
+                L()
+            cur, old = u.lv("cur"), u.lv("old")
+            b("%s := §%s{%s, %s}" % (cur, In, c(u, t, 1, 9), c(u, t, 10, 19)))
+            b("%s := §%s(&%s, §%s{%s, %s})" % (old, sw, cur, In, c(u, t, 20, 29), c(u, t, 30, 39)))
+            b(u.tr(*[as_int(e, t) for e in (old + ".X", old + ".Y", cur + ".X", cur + ".Y")]))
+            ca, oa = u.lv("ca"), u.lv("oa")
+            b("%s := [2]%s{%s, %s}" % (ca, t, c(u, t, 1, 9), c(u, t, 10, 19)))
+            b("%s := §%s(&%s, [2]%s{%s, %s})" % (oa, swa, ca, t, c(u, t, 20, 29), c(u, t, 30, 39)))
+            b(u.tr(*[as_int(e, t) for e in (oa + "[0]", oa + "[1]", ca + "[0]", ca + "[1]")]))
+            cb, ob = u.lv("cb"), u.lv("ob")
+            b("%s := §%s{1, 2, 3}" % (cb, B3))
+            b("%s := §%s(&%s, §%s{4, 5, 6})" % (ob, swb, cb, B3))
+            b(u.tr("int(%s.A)" % ob, "int(%s.B)" % ob, "int(%s.C)" % ob, "int(%s.A)" % cb))
+            u.feat("snapshot-returned-after-store")
         elif fm == 10:
             # snapshot taken before the original is modified, boxed into an interface afterwards
             a, snap = u.lv("a"), u.lv("snap")
